@@ -504,6 +504,8 @@ def _diag_only(M):
 
 def sym_inv(M):
     """contract of inv: fresh P with M P = P M = I (side condition det M != 0 recorded as fact user must ensure)"""
+    if M.ndim != 2 or M.shape[0] != M.shape[1]:
+        raise _np.linalg.LinAlgError(f"{M.ndim}-dimensional array given. Array must be at least two-dimensional and square")
     n = M.shape[0]
     if _diag_only(M):
         P = _np.zeros((n, n), dtype=object)
@@ -526,6 +528,8 @@ def sym_inv(M):
 
 def sym_solve(M, b):
     """contract of solve: fresh u with M u = b"""
+    if M.ndim != 2 or M.shape[0] != M.shape[1]:
+        raise _np.linalg.LinAlgError(f"{M.ndim}-dimensional array given. Array must be at least two-dimensional and square")
     if _diag_only(M):
         d = _np.array([SReal.lift(M[i, i]) for i in range(M.shape[0])], dtype=object)
         return (b.T / d).T if b.ndim == 2 else b / d
